@@ -60,6 +60,12 @@ def _call_fault(case):
 def cases(tier, seed, shard, nshards):
     if shard == 0:
         yield {"kind": "return-kinds"}
+    k = 0
+    for n in range(0, 8):
+        for b in range(len(SCOPED_BLOCKS)):
+            k += 1
+            if k % nshards == shard:
+                yield {"kind": "scoped", "keys": [(3 * i + 1) % 4 for i in range(n)], "block": b}
     rng = random.Random(f"C03-{seed}-{shard}")
     n = N_SPECS[tier] // nshards
     names = gen.ITER_TOOL_NAMES + gen.AGG_NAMES + ["any_iter"]
@@ -470,9 +476,80 @@ def run_groupby(case, stats):
     return {"violations": viols, "evals": max(1, evals), "sigs": sigs}
 
 
+SCOPED_BLOCKS = [
+    ["islice2", "zip_ab", "rest"], ["takewhile_lt2", "rest"], ["next", "list"], ["islice0", "next", "min", "rest"],
+    ["zip_ab", "zip_ab", "rest"], ["rest", "rest"], ["enumerate1", "next", "rest"],
+]
+
+
+def run_scoped(case, stats):
+    """scoped_iter over every flavour of source: the same block of tool applications sees the same items, whatever
+    kind of iterable the scope was opened on (a tool that closes its input never ends the scope's iterator)."""
+    from ..probes import SrcState, Plan, make_source, Item
+    from ..probes import canon as _canon
+    import asyncstdlib as A
+    keys, block = case["keys"], SCOPED_BLOCKS[case["block"]]
+
+    def run(flav):
+        CTX.reset()
+        st = SrcState(0, [Item(k, (0, i), truth=k != 0) for i, k in enumerate(keys)], Plan(0), log=False)
+        st.honour_close = True  # like a generator: once closed, nothing more
+        src = make_source(st, flav)
+        out = []
+
+        async def main():
+            async with A.scoped_iter(src) as h:
+                for op in block:
+                    if op == "islice2":
+                        out.append([x async for x in A.islice(h, 2)])
+                    elif op == "islice0":
+                        out.append([x async for x in A.islice(h, 0)])
+                    elif op == "zip_ab":
+                        out.append([x async for x in A.zip("ab", h)])
+                    elif op == "takewhile_lt2":
+                        out.append([x async for x in A.takewhile(lambda x: x.key < 2, h)])
+                    elif op == "enumerate1":
+                        async for pair in A.enumerate(h):
+                            out.append(pair)
+                            break
+                    elif op == "next":
+                        out.append(await A.anext(h, "END"))
+                    elif op == "list":
+                        out.append(await A.list(h))
+                    elif op == "min":
+                        out.append(await A.min(h, key=lambda x: x.key, default="EMPTY"))
+                    else:
+                        out.append([x async for x in h])
+
+        try:
+            drive(main())
+            term = ("ok",)
+        except BaseException as exc:  # noqa: BLE001
+            term = ("raise", type(exc).__name__)
+        return _canon(out), term, list(CTX.foreign)
+
+    base = run("list")
+    if base[1] != ("ok",):
+        raise RuntimeError(f"scoped scenario over a plain list ended with {base[1]}")  # a harness problem
+    viols, sigs = [], []
+    for flav in SRC_FL:
+        if flav == "list":
+            continue
+        got = run(flav)
+        stats["scoped_iter_variant_runs"] += 1
+        sigs.append(("scoped", str(keys), case["block"], flav))
+        if got[2]:
+            viols.append({"key": "scoped_iter/foreign-suspension", "msg": f"scoped_iter over {flav} keys={keys} block={block}: {got[2][0]}"})
+        elif got[:2] != base[:2]:
+            viols.append({"key": "scoped_iter/result", "msg": f"scoped_iter over {flav} keys={keys} block={block}: {got[:2]} vs over a list {base[:2]}"[:900]})
+    return {"violations": viols, "evals": len(SRC_FL) - 1, "sigs": sigs}
+
+
 def run_case(case, stats: Counter):
     if case["kind"] == "groupby":
         return run_groupby(case, stats)
+    if case["kind"] == "scoped":
+        return run_scoped(case, stats)
     if case["kind"] == "return-kinds":
         return run_kinds(stats)
     if case["kind"] == "exitstack":
